@@ -65,3 +65,61 @@ class Extract:
                 if ms and rn:
                     out.append({"order": i, "head": lp["head"], "lid": lp["lid"], "done": lp["done"], "state": b, "md5": ms[-1], "item": rn[0][2], "back": rn[0][1], "H": lp["H"]})
         return out
+
+
+def plaintext_facts(eng, X, dests):
+    """plaintext buffer shape of hide at the time of the first key: list of dicts per path"""
+    out = []
+    for st, did, d in X.md5s:
+        nk = norm_key(eng, d)
+        if not (nk and nk[0][0] == "type16"):
+            continue
+        for cell in dests:
+            v = st.cells.get(cell)
+            if not isinstance(v, VVec):
+                continue
+            f = {"state": st, "vec": v, "known": bool(v.segs), "problems": []}
+            out.append(f)
+            if not v.segs:
+                f["problems"].append("plaintext content unknown at the first key")
+                continue
+            segs = []
+            for sl, sd in v.segs:                      # flatten concatenations
+                if sd[0] == "cat":
+                    segs.extend(sd[1])
+                else:
+                    segs.append((sl, sd))
+            f["segs"] = segs
+            lenf = segs[0][1]
+            body = Lin.const(0)
+            rest = []
+            for i, (sl, sd) in enumerate(segs[1:]):
+                if sd[0] in ("sym", "arr") and ("length_padding" in str(sd[1]) or "alignment_padding" in str(sd[1])):
+                    rest = segs[1 + i:]
+                    break
+                body = body + sl
+            f["lenfield"] = lenf
+            f["body"] = body
+            lp = [s for s in rest if s[1][0] == "sym" and s[1][1] == "length_padding"]
+            ap = [s for s in rest if s[1][0] == "arr" and "alignment_padding" in str(s[1][1])]
+            f["lp"] = lp[0] if lp else None
+            f["ap"] = ap[0] if ap else None
+            f["order_ok"] = [("lp" if s in lp else "ap" if s in ap else "?") for s in rest] in (["lp", "ap"], ["lp"])
+            if not (lenf[0] == "be" and lenf[2] == 2 and isinstance(lenf[1], VInt)):
+                f["problems"].append("plaintext does not start with a 16-bit big-endian length")
+            elif not eng.ent(st, c_eq(lenf[1].lin, body + 6)):
+                f["problems"].append("original-length subfield %r is not 6 + |value| (%r)" % (lenf[1].lin, body))
+            if not lp:
+                f["problems"].append("length padding not in the plaintext")
+            if not f["order_ok"]:
+                f["problems"].append("padding order is not length padding then alignment padding at the end")
+            pre = Lin.const(2) + body + (lp[0][0] if lp else Lin.const(0))
+            p = ap[0][0] if ap else Lin.const(0)
+            lo, hi = eng.bounds(st, p)
+            q, r = eng.divmod_const(st, pre + p, 16)
+            f["align"] = (lo, hi)
+            if not (lo is not None and lo >= 0 and hi is not None and hi <= 15):
+                f["problems"].append("alignment padding %r (bounds %s..%s) is not within 0..15" % (p, lo, hi))
+            if not eng.ent(st, c_eq(r, Lin.const(0))) or not eng.ent(st, c_eq(v.len, pre + p)) or not eng.ent(st, c_le(Lin.const(16), v.len)):
+                f["problems"].append("plaintext length %r is not proven the positive multiple of 16 reached by the padding" % (v.len,))
+    return out
